@@ -443,6 +443,48 @@ def r6_iso(chk, F, R):
     chk.info("the default Display omits the fraction when ns == 0 whereas ISO8601 (non-optional %f) always prints it")
 
 
+def variant_texts(F, eng, self_ty, trait):
+    """text written by <self_ty as trait>::fmt for every variant of a field-less enum, read off the code -> {variant: text}"""
+    from ..sym import St as _St, Ref as _Ref
+    fn = F.find1(self_ty=self_ty, name="fmt", trait_ref=trait)
+    tid = eng.types[fn["locals"][1]["ty"]]["to"]
+    out = {}
+    for vi, var in enumerate(eng.types[tid]["variants"]):
+        eng.reset()
+        st = _St()
+        key = ("cell", "enum-arg")
+        st.store[key] = Enum(tid, vi, ())
+        eng._pending_cells = []
+        fv = eng.sym(fn["locals"][2]["ty"], "f")
+        for k2, inner in eng._pending_cells:
+            st.store[k2] = inner
+        finals = eng.run(fn, args=[_Ref(key=key), fv], st=st)
+        texts = set()
+        for s2 in finals:
+            if s2.end != "return":
+                continue
+            txt = ""
+            for o in outputs(s2):
+                if o[1] == "str":
+                    txt += o[2]
+                else:
+                    for p in o[2].pieces:
+                        if p[0] == "lit":
+                            txt += p[1]
+                            continue
+                        a = o[2].args[p[1]["index"]]
+                        v = eng.deref(s2, a.val) if isinstance(a.val, Ref) else a.val
+                        dbg = F.find(self_ty=self_ty, name="fmt", trait_ref="Debug")
+                        if a.kind == "debug" and isinstance(v, Enum) and v.tid == tid and len(dbg) == 1 and (dbg[0].get("impl") or {}).get("derived"):
+                            txt += eng.types[tid]["variants"][v.vi]["name"]  # #[derive(Debug)] on a field-less enum writes the variant's name
+                        else:
+                            txt += "?"
+            texts.add(txt)
+        if len(texts) == 1 and "?" not in next(iter(texts)):
+            out[var["name"]] = texts.pop()
+    return out
+
+
 def r7_parse_agreement(chk, F, R):
     """The format-driven reader interpreted on what the formatter renders (template-string domain of C10): for UTC epochs and
     the formats with the full date and time and no optional token, Format::parse(format, render(format, e)) must reach
@@ -455,7 +497,14 @@ def r7_parse_agreement(chk, F, R):
     RD = Reader(F)
     B2 = FormatBuilder(F, RD.eng)
     parse = F.find1(self_ty="Format", name="parse", trait="")
-    jobs = [("ISO8601", None), ("ISO8601_STD", None), ("RFC3339", None)]
+    jobs = [("ISO8601", None), ("ISO8601_STD", None), ("RFC3339", None), ("RFC2822", None), ("RFC2822_LONG", None)]
+    wd_short = variant_texts(F, RD.eng, "Weekday", "LowerHex")
+    wd_long = variant_texts(F, RD.eng, "Weekday", "Display")
+    mn_short = variant_texts(F, RD.eng, "MonthName", "LowerHex")
+    mn_long = variant_texts(F, RD.eng, "MonthName", "Display")
+    chk.ob(rule, "Weekday/MonthName", "names-read-off-the-code(7+7+12+12)", (len(wd_short), len(wd_long), len(mn_short), len(mn_long)) == (7, 7, 12, 12),
+           "E7 outputs per variant", detail={"weekday": wd_short, "month": mn_short})
+    month_order = [v["name"] for v in RD.eng.types[RD.eng.find_tid("month::MonthName")]["variants"]]
     extra_formats = ["%Y-%m-%d %H:%M:%S", "%d/%m/%Y %H:%M:%S.%f", "%H:%M:%S %Y-%m-%d"]
     n = 0
     for name, _ in jobs + [(f, "str") for f in extra_formats]:
@@ -481,6 +530,8 @@ def r7_parse_agreement(chk, F, R):
                     shape.append(("scale",))
                 elif g[0] == "field" and g[1].startswith("offset."):
                     shape.append(("offset-field", g[1], g[3]))
+                elif g[0] == "field" and g[1] in ("weekday", "month_name") and g[2] in ("display", "lower_hex"):
+                    shape.append(("name", g[1], g[2]))
                 else:
                     shape.append(("?", repr(g)[:60]))
             shapes.add(tuple(shape))
@@ -503,6 +554,33 @@ def r7_parse_agreement(chk, F, R):
             if any(x[0] == "?" for x in shape):
                 chk.info("C19.R7: format %s renders a field outside the numeric template domain; not run through the reader" % name)
                 continue
+            if any(x[0] == "name" for x in shape):
+                # English names: one template per month (with one weekday) and per weekday (with one month)
+                combos = [(wd, "January") for wd in sorted(wd_short)] + [("Monday", mo) for mo in month_order[1:]]
+                for wd, mo in combos:
+                    sh2 = []
+                    for x in shape:
+                        if x[0] == "name":
+                            table = (wd_short if x[2] == "lower_hex" else wd_long) if x[1] == "weekday" else (mn_short if x[2] == "lower_hex" else mn_long)
+                            sh2.append(("lit", table.get(wd if x[1] == "weekday" else mo, "?")))
+                        else:
+                            sh2.append(x)
+                    fmt_val = B2.format(items)
+                    RD.install()
+                    eng = RD.eng
+                    eng.reset()
+                    RD.T.n = 0
+                    st0 = _St()
+                    tmpl = build_from_shape(sh2, "UTC")(RD.T, st0)
+                    RD.T.vals[1] = Lin.const(month_order.index(mo) + 1)
+                    key = ("cell", "fmt-arg")
+                    st0.store[key] = fmt_val
+                    eng._pending_cells = []
+                    finals2 = eng.run(parse, args=[_Ref(key=key), _Ref(val=tmpl)], st=st0)
+                    RD.uninstall()
+                    n += 1
+                    check_gregorian_paths(chk, rule, "Format::parse[%s]" % name, "parse(render(e))->fields-in-role-order,UTC: %s" % trender(tmpl.els), RD, finals2, RD.T, "UTC")
+                continue
             fmt_val = B2.format(items)
             RD.install()
             eng = RD.eng
@@ -518,7 +596,7 @@ def r7_parse_agreement(chk, F, R):
             n += 1
             check_gregorian_paths(chk, rule, "Format::parse[%s]" % name, "parse(render(e))->fields-in-role-order,UTC: %s" % trender(tmpl.els), RD, finals2, RD.T, "UTC",
                                   sample=(n == 1))
-    chk.floor(rule, "format/parse templates", n, 3)
+    chk.floor(rule, "format/parse templates", n, 40)
 
 
 def run(chk, F, tier):
